@@ -717,6 +717,13 @@ func c04Run(c *core.Ctx) {
 		c04RunInput(c, gen.RenderDefault(toks), cf, modes1, len(toks))
 		c04RunInput(c, gen.Render(toks, func(int) string { return "\n" }, func(int) int { return 1 }), cheap, modes1, len(toks))
 	})
+	for i, sp := range gen.Scale(c.Thorough()) {
+		if !c.Mine(int64(i)) || c.Tick() {
+			continue
+		}
+		c.Inc("scale_programs")
+		c04RunInput(c, sp.Src, cheap, modes1, 1000+len(sp.Src))
+	}
 	gen.NestChains(gen.Nesters(true), 2, func(prog []*gen.Node, name string) {
 		if !c.Next() || c.Tick() {
 			return
